@@ -38,7 +38,15 @@ const ALIASES: [&str; 2] = [
     "INSERT { <http://e/x> <http://e/p> <http://e/y> . }",
     "DELETE { <http://e/a> <http://e/p> <http://e/b> . }",
 ];
-const QUERIES: [&str; 6] = [
+const QUERIES: [&str; 13] = [
+    // dataset clauses and GRAPH patterns naming graphs that do NOT exist: reading must not create their identity
+    "SELECT ?s FROM NAMED <http://e/absent> WHERE { GRAPH ?g { ?s ?p ?o } }",
+    "SELECT ?s FROM <http://e/absent> WHERE { ?s ?p ?o }",
+    "SELECT ?s FROM <http://e/g> FROM NAMED <http://e/absent2> WHERE { ?s ?p ?o }",
+    "SELECT ?s WHERE { GRAPH <http://e/absent3> { ?s ?p ?o } }",
+    "PREFIX e: <http://e/> SELECT ?s FROM NAMED e:absent4 WHERE { GRAPH e:absent4 { ?s ?p ?o } }",
+    "SELECT ?g WHERE { GRAPH ?g { } }",
+    "SELECT ?s WHERE { { ?s <http://e/p> ?o } UNION { GRAPH <http://e/absent5> { ?s ?p ?o } } }",
     "SELECT ?s ?o WHERE { ?s <http://e/p> ?o }",
     "SELECT * WHERE { GRAPH ?g { ?s ?p ?o } }",
     "SELECT ?s WHERE { ?s <http://e/p> ?o . FILTER(?o = \"lit\") } ORDER BY ?s LIMIT 1",
@@ -175,3 +183,8 @@ fn text_of(op: usize) -> &'static str {
     }
 }
 #[test] fn w__instantiate_templates__any() { w__instantiate_templates__blank_nodes_fresh_per_solution(); w__instantiate_templates__repeated_solutions_each_get_fresh_blank_nodes(); }
+#[test] fn w__build_dataset_view__any() { w__execute_sparql_query__never_mutates(); }
+#[test] fn w__execute_select__any() { w__execute_sparql_query__never_mutates(); }
+#[test] fn w__compile_dataset_graph__any() { w__execute_sparql_query__never_mutates(); }
+#[test] fn w__optimize_and_execute__any() { w__execute_sparql_query__never_mutates(); }
+#[test] fn w__execute_with_ids_and_dataset__any() { w__execute_sparql_query__never_mutates(); }
